@@ -6,11 +6,18 @@
 //
 // case lines (field 2 is always g=<entry-group ids>, used by the model driver):
 //   cbs   g=5
-//   msg   g=1,2 <hexmsg> <cap> <shape>
+//   msg   g=1,2 <hexmsg> <cap> <shape> <len> [<inplace>]
+//         inplace = <off>:<dlen>:<n>[:<off2>],...  bundles built IN PLACE: the destination is dlen bytes, element 1
+//                   is the message put at destination+off (off may be negative or beyond dlen-msglen: every
+//                   overlap shape), n = 1 | 2 elements (the second: the pristine copy outside, or the message
+//                   put at destination+off2)
 //   match g=3   <hexpattern> <hexmsg>
 //   reply g=6   <P|C> <strlen> <r|b>
 //   disp  g=4,5,6 <tree> <hexmsg> <loc N|L|Z><base 0|1><data P|C> ...
+//   hist  g=4,5,6 <tree> <hexmsg>,<hexmsg>,... <mode>      a history: the messages are dispatched one after the
+//                other on ONE object / tree inside one RT section (disp: the one message twice)
 //         tree = S0 | S1 (static sugar tree; S1: Mid::pleaf == NULL) | S2 (ClonePorts of Leaf with a "*" default)
+//              | S3 (Leaf::ports itself, one Leaf)
 //              | G<table>;<table>...   table = <flag -|d|s>:<hexname>.<cb>|...
 //                cb = L<k> (callback + metadata of c03::Leaf::ports[k]) | R<j> (recurse into table j>i)
 //   link  g=7   <maxmsg> <nmsg> <op>,<op>,...    op = w<hexmsg> raw_write | W<k> write (shape k)
@@ -228,9 +235,25 @@ static std::string do_cbs(void)
 static uint8_t midi4[4] = {0x90, 0x3c, 0x7f, 0};
 static uint8_t blob8[8] = {1, 2, 3, 4, 5, 6, 7, 8};
 
+// argument lists of more than 32 values (the conversion of a va_list into rtosc_arg_t[] is sized by the type string)
+#define T8  "iiiiiiii"
+#define I8  1, 2, 3, 4, 5, 6, 7, 8
+#define TM4 "isfd"
+#define M4  7, "str", 1.5, 2.5
+#define TM20 TM4 TM4 TM4 TM4 TM4
+#define M20  M4, M4, M4, M4, M4
+#define MANY33 T8 T8 T8 T8 "i",      I8, I8, I8, I8, 9
+#define MANY32 T8 T8 T8 T8,          I8, I8, I8, I8
+#define MANY40 T8 T8 "TF" T8 T8 T8,  I8, I8, I8, I8, I8
+#define MANY80 TM20 TM20 TM20 TM20,  M20, M20, M20, M20
+
 static size_t build_shape(char *out, size_t cap, int shape)
 {
     switch(shape) {
+        case 6:  return rtosc_message(out, cap, "/w33", MANY33);
+        case 7:  return rtosc_message(out, cap, "/w32", MANY32);
+        case 8:  return rtosc_message(out, cap, "/w40", MANY40);
+        case 9:  return rtosc_message(out, cap, "/w80", MANY80);
         case 0:  return rtosc_message(out, cap, "/s0", "");
         case 1:  return rtosc_message(out, cap, "/shape/one", "i", 42);
         case 2:  return rtosc_message(out, cap, "/sh2", "sf", "a string argument", 2.5);
@@ -251,6 +274,27 @@ static std::string do_msg(const std::vector<std::string> &f)
     const size_t bcap = 2 * m.n + 64;
     std::unique_ptr<char[]> out(new char[cap + 64]), out2(new char[bcap]), scratch(new char[m.n + 64 + 8192]);
     size_t len = 0, rebuilt = 0, avb = 0, shp = 0, vb = 0, bl = 0, be = 0, ringlen = 0, nargs = 0, itn = 0, bsz = 0;
+    // bundles built in place: one arena, the destination in its middle, room for an element that starts
+    // before the destination or reaches past its end
+    struct InPlace { long off, off2; size_t dlen; int n; bool has2; };
+    std::vector<InPlace> ips;
+    size_t maxd = 0, ipsum = 0, ipok = 0, ipvalid = 0;
+    const long pre = (long)((m.n + 64 + 7) / 8 * 8);
+    if(f.size() > 6 && f[6] != "-")
+        for(auto &t : split(f[6], ',')) {
+            auto q = split(t, ':');
+            if(q.size() < 3) return "BADCASE";
+            InPlace ip;
+            ip.off = atol(q[0].c_str()); ip.dlen = strtoul(q[1].c_str(), 0, 10); ip.n = atoi(q[2].c_str());
+            ip.has2 = q.size() > 3; ip.off2 = ip.has2 ? atol(q[3].c_str()) : 0;
+            if(ip.n < 1 || ip.n > 2 || ip.dlen > (1u << 20) || ip.off < -pre + 8 || ip.off > (long)ip.dlen + 8
+               || ip.off2 < -pre + 8 || ip.off2 > (long)ip.dlen + 8)
+                return "BADCASE";
+            if(ip.dlen > maxd) maxd = ip.dlen;
+            ips.push_back(ip);
+        }
+    const size_t alen = 2 * (size_t)pre + maxd + 64;
+    std::unique_ptr<char[]> arena(new char[alen]);
     bool valid = false, same = false, isb = false;
     uint64_t tt = 0;
     unsigned acc = 0;
@@ -286,6 +330,7 @@ static std::string do_msg(const std::vector<std::string> &f)
         if(!novalue_tags)
             avb = rtosc_avmessage(scratch.get(), m.n + 64, m.p, itn, avs);
         shp = build_shape(scratch.get(), cap > 8192 ? 8192 : cap, shape);
+        shp += build_shape(0, 0, shape) != 0;      // measuring only
         // bundles of (rebuilt or original) messages
         bl  = rtosc_bundle(out2.get(), bcap, 0x0102030405060708ULL, 2, m.p, m.p);
         isb = rtosc_bundle_p(out2.get());
@@ -296,16 +341,29 @@ static std::string do_msg(const std::vector<std::string> &f)
         }
         tt = rtosc_bundle_timetag(out2.get());
         vb = rtosc_message_length(out2.get(), bl);
+        // the message wrapped into a bundle IN PLACE: element and destination overlap
+        for(const InPlace &ip : ips) {
+            char *dest = arena.get() + pre;
+            memset(arena.get(), 0, alen);
+            memcpy(dest + ip.off, m.p, m.n);
+            if(ip.has2)
+                memcpy(dest + ip.off2, m.p, m.n);
+            size_t r = ip.n == 1 ? rtosc_bundle(dest, ip.dlen, 0x1112131415161718ULL, 1, dest + ip.off)
+                                 : rtosc_bundle(dest, ip.dlen, 0x1112131415161718ULL, 2, dest + ip.off,
+                                                ip.has2 ? dest + ip.off2 : m.p);
+            ipsum += r; ipok += r != 0;
+            ipvalid += rtosc_bundle_p(dest) && rtosc_message_length(dest, ip.dlen) == r;
+        }
         // the same message seen through a two-segment ring, cut at every 4th position
         for(size_t cut = 0; cut <= len; cut += 4) {
             ring_t r[2] = {{m.p, cut}, {m.p + cut, len - cut + 8}};
             ringlen += rtosc_message_ring_length(r) == len;
         }
     }
-    char b[400];
-    snprintf(b, sizeof b, " | len=%zu valid=%d nargs=%zu itr=%zu rebuilt=%zu same=%d av=%zu shape=%zu bundle=%zu/%d/%zu/%zu/%zu tt=%llx ring=%zu acc=%u",
+    char b[480];
+    snprintf(b, sizeof b, " | len=%zu valid=%d nargs=%zu itr=%zu rebuilt=%zu same=%d av=%zu shape=%zu bundle=%zu/%d/%zu/%zu/%zu tt=%llx ring=%zu acc=%u inplace=%zu/%zu/%zu/%zu",
              len, (int)valid, nargs, itn, rebuilt, (int)same, avb, shp, bl, (int)isb, be, bsz, vb,
-             (unsigned long long)tt, ringlen, acc);
+             (unsigned long long)tt, ringlen, acc, ips.size(), ipok, ipvalid, ipsum);
     return verdict() + b;
 }
 
@@ -341,9 +399,12 @@ static std::string do_reply(const std::vector<std::string> &f)
         if(f[4] == "r") {
             d.reply("/reply/path", "sif", s.get(), 7, 1.5);
             d.reply("/reply/blob", "b", 8, blob8);
+            d.reply("/reply/many", MANY33);
+            d.reply("/reply/many", MANY80);
             d.reply(cap.last);
         } else {
             d.broadcast("/broadcast/path", "sTc", s.get(), 'x');
+            d.broadcast("/broadcast/many", MANY40);
             d.broadcast(cap.last);
         }
         d.chain("/chain", "i", 1);
@@ -360,7 +421,11 @@ static std::string do_reply(const std::vector<std::string> &f)
 
 static std::string do_disp(const std::vector<std::string> &f)
 {
-    MsgBuf m(unhex(f[3]));
+    std::vector<std::unique_ptr<MsgBuf>> ms;
+    for(auto &h : split(f[3], ','))
+        ms.emplace_back(new MsgBuf(unhex(h)));
+    if(ms.empty()) return "BADCASE";
+    const bool history = f[0] == "hist";
     const std::string &mode = f[4];
     if(mode.size() != 3) return "BADCASE";
     std::unique_ptr<World>   w;
@@ -370,6 +435,8 @@ static std::string do_disp(const std::vector<std::string> &f)
     void *obj = 0;
     if(f[2] == "S2") {
         root = &Cloned::ports; obj = &leaf;
+    } else if(f[2] == "S3") {
+        root = &Leaf::ports; obj = &leaf;
     } else if(f[2][0] == 'S') {
         w.reset(new World(f[2] == "S1"));
         root = &Root::ports; obj = &w->root;
@@ -389,9 +456,15 @@ static std::string do_disp(const std::vector<std::string> &f)
     bool base = mode[1] == '1';
     {
         RtSection rt;
-        root->dispatch(m.p, d, base);
-        // a second dispatch of the same message: nothing is cached lazily
-        root->dispatch(m.p, d, base);
+        if(history) {
+            // one object, one tree, one location buffer: what an earlier message stored is there for the next
+            for(auto &m : ms)
+                root->dispatch(m->p, d, base);
+        } else {
+            root->dispatch(ms[0]->p, d, base);
+            // a second dispatch of the same message: nothing is cached lazily
+            root->dispatch(ms[0]->p, d, base);
+        }
     }
     char b[300];
     size_t ll = rtosc_message_length(cap.last, 8192);
@@ -432,6 +505,10 @@ static std::string do_link(const std::vector<std::string> &f)
                         case '1': tl->write("/write/one", "i", 42); break;
                         case '2': tl->write("/w2", "sf", "a string argument", 2.5); break;
                         case '3': tl->write("/w3", "b", 8, blob8); break;
+                        case '5': tl->write("/w33", MANY33); break;
+                        case '6': tl->write("/w32", MANY32); break;
+                        case '7': tl->write("/w40", MANY40); break;
+                        case '8': tl->write("/w80", MANY80); break;
                         default:  tl->write("/every/tag", "ifsbhtdScrmTFNI", 1, 2.0, "s", 5, blob8, (int64_t)4,
                                             (uint64_t)5, 6.0, "S", 'c', 0x11223344, midi4); break;
                     }
@@ -464,7 +541,7 @@ int main()
         else if(f.size() >= 5 && f[0] == "msg")            out = do_msg(f);
         else if(f.size() >= 4 && f[0] == "match")          out = do_match(f);
         else if(f.size() >= 5 && f[0] == "reply")          out = do_reply(f);
-        else if(f.size() >= 5 && f[0] == "disp")           out = do_disp(f);
+        else if(f.size() >= 5 && (f[0] == "disp" || f[0] == "hist")) out = do_disp(f);
         else if(f.size() >= 5 && f[0] == "link")           out = do_link(f);
         puts(out.c_str());
         fflush(stdout);
